@@ -84,6 +84,7 @@ void oracle_misuse_op(const Op& op) {
     memcpy(p, &forged, sizeof forged);              // the program overwrites the free-list link of the freed block
     H.misuse_expected++;
     expect_errors(EB_EFAULT);
+    for (auto& z : H.zombies) if (z.prog == T->prog) z.reissued = true;   // a corrupted list may drop blocks behind the forged link: a later second free of those cannot be recognised
     T->misuse_in_progress = true;
     // allocate in that class until the allocator must have walked past the forged link (kept live meanwhile, released afterwards)
     int detected = 0; const size_t limit = 2 * (65536 / (req + 8)) + 16;
